@@ -56,6 +56,17 @@ CHECKS["C13"] = dict(
     technique="TLA+ spec of the header layout, TLC exhaustive per word + boundary lattice; replay and logged-call validation",
     design="5 C13")
 
+CHECKS["C04"] = dict(
+    text=("Numeric.tla defines integer (unsigned / two's complement, byte order), IEEE-754 binary16/32/64 and MIL-STD-1750A decoding "
+          "on bit sequences with exact typed results (sign-magnitude bits; class/sign/odd significand/exponent). TLC enumerates "
+          "every pattern of integer widths 1..10 and all 65536 binary16 patterns in both byte orders and cross-checks the bit-level "
+          "operators against plain arithmetic and the IEEE class table; boundary patterns of wide integers, binary32/64 and 1750A "
+          "are exported too. Every exported row is decoded by the real parse_value at several bit offsets; random wide patterns "
+          "decoded by the real code are logged and re-evaluated by Trace_Numeric."),
+    note="Byte order is claimed for whole-byte widths only; NaN payloads are not compared. " + TRUSTED,
+    technique="TLA+ transcription of the decoders, TLC exhaustive small-width tables + replay; logged decodes re-evaluated by TLC",
+    design="5 C04")
+
 NOT_YET = {}
 for _i in range(1, 21):
     _p = f"C{_i:02d}"
